@@ -46,7 +46,7 @@ package hessian
 //@ func (*Decoder).readObject
 //@   assigns @pos, @E, @declared, @rset, @nvals, @selfregs, @lastreader, @calls, @dstartcls, @dstartrefs, @dstarttyps, d.typList, d.refList, d.clsDefList
 //@   loop 1 invariant [C14,C05:object-index] 0 <= i && i <= len(cls.FieldName)
-//@   loop 1 invariant [C04:object-registered-first] @selfregs == old(@selfregs) + 1 && len(d.refList) >= len(old(d.refList)) + 1
+//@   loop 1 invariant [C04:object-registered-first] @selfregs == old(@selfregs) + 1 && len(d.refList) >= len(old(d.refList)) + 1 && len(d.clsDefList) >= len(old(d.clsDefList)) && len(d.refList) >= len(old(d.refList)) && len(d.typList) >= len(old(d.typList))
 //@   loop 1 invariant [C05,C06:object-one-value-per-field] @nvals == old(@nvals) + i
 //@   ensures [C05,C06:object-production] err == nil ==> @nvals == old(@nvals) + len(cls.FieldName)
 //@   ensures [C04:object-registered] err == nil ==> @selfregs == old(@selfregs) + 1
@@ -89,7 +89,7 @@ package hessian
 //@   sets @calls = old(@calls) + 1
 //@   loop 1 invariant [C14,C03:typedlist-index] (isVariableArr || (0 <= j && j <= length)) && 0 <= length
 //@   loop 1 invariant [C03,C06:typedlist-one-value-per-element] @nvals == old(@nvals) + j
-//@   loop 1 invariant [C04:typedlist-registered-first] @selfregs == old(@selfregs) + 1 && len(d.refList) >= len(old(d.refList)) + 1
+//@   loop 1 invariant [C04:typedlist-registered-first] @selfregs == old(@selfregs) + 1 && len(d.refList) >= len(old(d.refList)) + 1 && len(d.clsDefList) >= len(old(d.clsDefList)) && len(d.refList) >= len(old(d.refList)) && len(d.typList) >= len(old(d.typList))
 //@   proves  [C03,C06:typedlist-count]   err == nil && result0 != nil && tag != 0x55 ==> @nvals == old(@nvals) + length
 //@   proves  [C03:typedlist-compact-len] err == nil && result0 != nil && 0x70 <= tag && tag <= 0x77 ==> length == int(tag) - 0x70
 //@   ensures [C04:typedlist-registered]  err == nil && result0 != nil ==> @selfregs == old(@selfregs) + 1
@@ -101,7 +101,7 @@ package hessian
 //@   sets @calls = old(@calls) + 1
 //@   loop 1 invariant [C14,C03:untypedlist-index] (isVariableArr || (0 <= j && j <= length)) && 0 <= length && (!isVariableArr ==> len(ary) == length)
 //@   loop 1 invariant [C03,C06:untypedlist-one-value-per-element] @nvals == old(@nvals) + j
-//@   loop 1 invariant [C04:untypedlist-registered-first] @selfregs == old(@selfregs) + 1 && len(d.refList) >= len(old(d.refList)) + 1
+//@   loop 1 invariant [C04:untypedlist-registered-first] @selfregs == old(@selfregs) + 1 && len(d.refList) >= len(old(d.refList)) + 1 && len(d.clsDefList) >= len(old(d.clsDefList)) && len(d.refList) >= len(old(d.refList)) && len(d.typList) >= len(old(d.typList))
 //@   proves  [C03,C06:untypedlist-count]   err == nil && result0 != nil && tag != 0x57 ==> @nvals == old(@nvals) + length
 //@   proves  [C03:untypedlist-compact-len] err == nil && result0 != nil && 0x78 <= tag && tag <= 0x7f ==> length == int(tag) - 0x78
 //@   ensures [C04:untypedlist-registered]  err == nil && result0 != nil ==> @selfregs == old(@selfregs) + 1
@@ -124,7 +124,7 @@ package hessian
 //@   assigns @pos, @E, @declared, @rset, @nvals, @selfregs, @lastreader, @calls, @dstartcls, @dstartrefs, @dstarttyps, d.typList, d.refList, d.clsDefList
 //@   sets @lastreader = 3
 //@   sets @calls = old(@calls) + 1
-//@   loop 1 invariant [C04:typedmap-registered-first] @selfregs == old(@selfregs) + 1 && len(d.refList) >= len(old(d.refList)) + 1
+//@   loop 1 invariant [C04:typedmap-registered-first] @selfregs == old(@selfregs) + 1 && len(d.refList) >= len(old(d.refList)) + 1 && len(d.clsDefList) >= len(old(d.clsDefList)) && len(d.refList) >= len(old(d.refList)) && len(d.typList) >= len(old(d.typList))
 //@   ensures [C04:typedmap-registered] err == nil ==> @selfregs == old(@selfregs) + 1
 //@   ensures [C06:tables-grow] len(d.clsDefList) >= len(old(d.clsDefList)) && len(d.refList) >= len(old(d.refList)) && len(d.typList) >= len(old(d.typList))
 
@@ -132,14 +132,14 @@ package hessian
 //@   assigns @pos, @E, @declared, @rset, @nvals, @selfregs, @lastreader, @calls, @dstartcls, @dstartrefs, @dstarttyps, d.typList, d.refList, d.clsDefList
 //@   sets @lastreader = 4
 //@   sets @calls = old(@calls) + 1
-//@   loop 1 invariant [C04:untypedmap-registered-first] @selfregs == old(@selfregs) + 1 && len(d.refList) >= len(old(d.refList)) + 1
+//@   loop 1 invariant [C04:untypedmap-registered-first] @selfregs == old(@selfregs) + 1 && len(d.refList) >= len(old(d.refList)) + 1 && len(d.clsDefList) >= len(old(d.clsDefList)) && len(d.refList) >= len(old(d.refList)) && len(d.typList) >= len(old(d.typList))
 //@   ensures [C04:untypedmap-registered] err == nil ==> @selfregs == old(@selfregs) + 1
 //@   ensures [C06:untypedmap-no-carrier] err == nil ==> result0 != nil
 //@   ensures [C06:tables-grow] len(d.clsDefList) >= len(old(d.clsDefList)) && len(d.refList) >= len(old(d.refList)) && len(d.typList) >= len(old(d.typList))
 
 //@ func (*Decoder).readMap
 //@   assigns @pos, @E, @declared, @rset, @nvals, @selfregs, @lastreader, @calls, @dstartcls, @dstartrefs, @dstarttyps, d.typList, d.refList, d.clsDefList
-//@   loop 1 invariant [C04:map-registered-first] @selfregs == old(@selfregs) + 1 && len(d.refList) >= len(old(d.refList)) + 1
+//@   loop 1 invariant [C04:map-registered-first] @selfregs == old(@selfregs) + 1 && len(d.refList) >= len(old(d.refList)) + 1 && len(d.clsDefList) >= len(old(d.clsDefList)) && len(d.refList) >= len(old(d.refList)) && len(d.typList) >= len(old(d.typList))
 //@   ensures [C04:map-total] true
 //@   ensures [C06:tables-grow] len(d.clsDefList) >= len(old(d.clsDefList)) && len(d.refList) >= len(old(d.refList)) && len(d.typList) >= len(old(d.typList))
 
